@@ -37,6 +37,16 @@ HEAVY = {'K3W', 'B3E'}
 LIGHT_ARGS = ['ds', 'lem', 'explosion', 'mp', 'mt', 'assert', 'affirming-consequent', 'neg-cond', 'demorgan', 'contraposition']     # C04 findings: their biconditional rules break SatPreserved by design of the defect
 
 
+def rules_for(rules, L, d, tag):
+    """the rows of one logic, in a file of their own (TLC re-reads IOEnv-based definitions; small tables keep that cheap)"""
+    out = d / f'{tag}-rules-{L}.ndjson'
+    with open(out, 'w') as f:
+        for line in open(rules):
+            if json.loads(line)['logic'] == L:
+                f.write(line)
+    return out
+
+
 def run(rep, logics, d, tag, workers=2, full=False):
     """returns number of violations reported"""
     g = C.tlc('C04_Exact', GEN_CFG, env={'CASES': '/dev/null'}, out_name='cases.ndjson', tag=f'{tag}mcgen', timeout=3000)
@@ -63,7 +73,7 @@ def run(rep, logics, d, tag, workers=2, full=False):
             args = {k: v for k, v in args.items() if k in LIGHT_ARGS + ['transitivity', 'bicond-intro', 'demorgan2']}
         pf = d / f'{tag}-par-{L}.json'
         pf.write_text(json.dumps({'logic': L, 'args': list(args.values())}))
-        calls.append(dict(module='TableauMC', cfg=MC_CFG, env={'RULES': rules, 'PAR': pf}, workers=workers, tag=f'{tag}mc{L}',
+        calls.append(dict(module='TableauMC', cfg=MC_CFG, env={'RULES': rules_for(rules, L, d, tag), 'PAR': pf}, workers=workers, tag=f'{tag}mc{L}',
                           timeout=1800, xmx='3g', check=False))
     bad = 0
     for L, r in zip(logics, C.tlc_parallel(calls, nproc=max(1, C.NCPU // workers))):
@@ -122,7 +132,7 @@ def run_modal(rep, logics, d, tag, maxw=3, workers=2, full=False):
     for L in logics:
         pf = d / f'{tag}-mpar-{L}.json'
         pf.write_text(json.dumps({'logic': L, 'args': list(args.values()), 'maxw': maxw}))
-        calls.append(dict(module='TableauModalMC', cfg=MODAL_CFG, env={'RULES': rules, 'PAR': pf}, workers=workers,
+        calls.append(dict(module='TableauModalMC', cfg=MODAL_CFG, env={'RULES': rules_for(rules, L, d, tag + 'm'), 'PAR': pf}, workers=workers,
                           tag=f'{tag}mm{L}', timeout=2400, xmx='3g', check=False))
     bad = 0
     for L, r in zip(logics, C.tlc_parallel(calls, nproc=max(1, C.NCPU // workers))):
@@ -136,4 +146,92 @@ def run_modal(rep, logics, d, tag, maxw=3, workers=2, full=False):
             bad += 1
         elif r.error:
             raise C.MachineryError(f'TableauModalMC failed for {L}:\n{r.out[-2500:]}')
+    return bad
+
+
+# --------------------------------------------------------------------------
+# first-order calculus (TableauFOMC.tla)
+# --------------------------------------------------------------------------
+FO_CFG = ("SPECIFICATION Spec\nINVARIANT Saturated\nINVARIANT ModelSatisfiesBranch\nINVARIANT VerdictAsRecorded\n"
+          "PROPERTY Termination\nCHECK_DEADLOCK FALSE\n")
+FO_HEAVY = {'K3W', 'B3E', 'GO', 'K3WQ'}
+FO_LIGHT = ['univ-elim', 'exist-intro', 'exist-elim-bad', 'univ-intro-bad', 'univ-exist', 'syllogism', 'quant-neg', 'quant-neg2',
+            'univ-conj', 'two-consts', 'lem-univ']
+FO_LOGICS = ['CFOL', 'FDE', 'K3', 'LP', 'L3', 'RM3', 'K3W', 'K3WQ', 'B3E', 'G3', 'GO', 'MH', 'NH']
+
+
+def fo_args():
+    from corpus import C as K, F1, G1, H2, P as Pr, Q, V
+    x, y = V(0), V(1)
+    ca, cb = K(0), K(1)
+    Fx, Gx, Fa, Ga, Fb = Pr(F1, x), Pr(G1, x), Pr(F1, ca), Pr(G1, ca), Pr(F1, cb)
+    U = lambda v, s: Q('Universal', v, s)
+    E = lambda v, s: Q('Existential', v, s)
+    return {
+        'univ-elim': {'prems': [U(x, Fx)], 'conc': Fa},
+        'exist-intro': {'prems': [Fa], 'conc': E(x, Fx)},
+        'exist-elim-bad': {'prems': [E(x, Fx)], 'conc': Fa},
+        'univ-intro-bad': {'prems': [Fa], 'conc': U(x, Fx)},
+        'univ-exist': {'prems': [U(x, Fx)], 'conc': E(x, Fx)},
+        'syllogism': {'prems': [U(x, O('MaterialConditional', Fx, Gx)), Fa], 'conc': Ga},
+        'two-witnesses': {'prems': [E(x, Fx), E(x, Gx)], 'conc': E(x, O('Conjunction', Fx, Gx))},
+        'quant-neg': {'prems': [Neg(E(x, Fx))], 'conc': U(x, Neg(Fx))},
+        'quant-neg2': {'prems': [Neg(U(x, Fx))], 'conc': E(x, Neg(Fx))},
+        'univ-conj': {'prems': [U(x, O('Conjunction', Fx, Gx))], 'conc': O('Conjunction', U(x, Fx), U(x, Gx))},
+        'exist-disj': {'prems': [E(x, O('Disjunction', Fx, Gx))], 'conc': O('Disjunction', E(x, Fx), E(x, Gx))},
+        'swap-valid': {'prems': [E(x, U(y, Pr(H2, x, y)))], 'conc': U(y, E(x, Pr(H2, x, y)))},
+        'two-consts': {'prems': [U(x, Fx), Neg(Fb)], 'conc': Ga},
+        'lem-univ': {'prems': [], 'conc': U(x, O('Disjunction', Fx, Neg(Fx)))},
+    }
+
+
+def run_fo(rep, logics, d, tag, workers=2, full=False):
+    """All schedules of the first-order calculus of each logic, rule table extracted from the real rule objects, verdicts
+    compared with what the real prover reports for the same arguments."""
+    import proofs as P
+    g = C.tlc('C04_Exact', GEN_CFG, env={'CASES': '/dev/null'}, out_name='cases.ndjson', tag=f'{tag}fogen', timeout=3000)
+    shapes = d / f'{tag}-foshapes.ndjson'
+    with open(shapes, 'w') as f:
+        for line in open(g.out_path):
+            x = json.loads(line)
+            if x['logic'] in logics and (x['kind'] == 'op' or (x['kind'] == 'quant' and x['k'] == 1)):
+                f.write(line)
+    ns = 8
+    C.run_drivers_parallel([('d_rules.py', [shapes, d / f'{tag}-forules{k}.ndjson', k, ns], {'hooks': False}) for k in range(ns)])
+    rules = d / f'{tag}-forules.ndjson'
+    with open(rules, 'w') as f:
+        for k in range(ns):
+            f.write(open(d / f'{tag}-forules{k}.ndjson').read())
+    all_args = fo_args()
+
+    def args_of(L):
+        # weak-Kleene style rule sets (three-way forks, translated quantifiers) have a much larger schedule space
+        names = FO_LIGHT if L in FO_HEAVY else (list(all_args) if full else FO_LIGHT + ['two-witnesses'])
+        if L == 'GO' and not full:
+            names = [n for n in names if n != 'quant-neg']
+        return {k: all_args[k] for k in names}
+    # what the real prover reports for these arguments (default options)
+    jobs = [{'id': f'{name}/{L}', 'logic': L, 'arg': a, 'g': 1, 'r': 1, 'mode': 'build', 'level': 'verdict', 'max_steps': 500}
+            for L in logics for name, a in args_of(L).items()]
+    expect = {r['id']: ('limit' if r['raised'] else r['outcome']) for r in P.read_records(P.run_jobs(jobs, f'{tag}fo'))}
+    calls = []
+    for L in logics:
+        pf = d / f'{tag}-fopar-{L}.json'
+        pf.write_text(json.dumps({'logic': L, 'args': [dict(a, expect=expect[f'{name}/{L}']) for name, a in args_of(L).items()]}))
+        calls.append(dict(module='TableauFOMC', cfg=FO_CFG, env={'RULES': rules_for(rules, L, d, tag + 'fo'), 'PAR': pf}, workers=workers, tag=f'{tag}fo{L}',
+                          timeout=2400, xmx='3g', check=False))
+    bad = 0
+    for L, r in zip(logics, C.tlc_parallel(calls, nproc=max(1, C.NCPU // workers))):
+        rep.add_tlc(r)
+        rep.cov.setdefault('fo_mc_per_logic', {})[L] = {'states': r.distinct, 'wall_s': round(r.wall, 1),
+                                                        'arguments': len(args_of(L)),
+                                                        'verdicts': sorted({expect[f'{name}/{L}'] for name in args_of(L)})}
+        if r.violated or 'Temporal properties were violated' in r.out:
+            which = [x for x in ('Saturated', 'ModelSatisfiesBranch', 'VerdictAsRecorded') if f'Invariant {x} is violated' in r.out]
+            rep.violation({'kind': 'all_schedules_model', 'clause': (which or ['Termination'])[0], 'logic': L,
+                           'logic_family': L, 'root': 'model-layer'},
+                          {'tlc_tail': r.out[-3000:]})
+            bad += 1
+        elif r.error:
+            raise C.MachineryError(f'TableauFOMC failed for {L}:\n{r.out[-2500:]}')
     return bad
